@@ -13,9 +13,14 @@ def run(ctx):
                         "every byte offset x {EOF, reset, timeout}, read timeout 0 s", env=env)
     s2 = rxcommon.drive(ctx, "fail1", ["-fail", 12 if thorough else 3, "-failtimeout", 1, "-failstep", 7 if thorough else 23],
                         "sampled byte offsets x {EOF, reset, timeout}, read timeout 1 s", env=env)
+    # failures during a request write: the call that hits the failure reports an error, nothing panics
+    import json, os
+    t = os.path.join(ctx.scratch, "tx-wfail.ndjson")
+    ctx.run_driver(["tx", "-wfail", 2000 if thorough else 250, "-seed", ctx.seed, "-out", t])
+    ctx.validate("", "Trace_TxPath", "Trace_TxPath.cfg", t, label="transport failure after k bytes of a request write")
     ctx.extra.update({"fail_runs_timeout0": s1["runs"], "fail_runs_timeout1": s2["runs"]})
     ctx.assumptions += [
         "the failing transport keeps returning the same failure for every later read (a dead peer)",
         "'no later than the configured read timeout' is observed with a watchdog of timeout + 4 s; a later error is class 'late' and rejected",
-        "failures during a request write are covered by the C13 check (send on a failing transport)"]
+        "failures during a request write: the transport fails after k bytes (random k over the whole message); the failing call must return an error or, if the failure point was not reached, succeed"]
     return ctx.finish(rule="U3: for bounded responses every failure offset 0..len of the byte stream, three failure kinds, random chunkings up to the failure; prefix and values judged against the single-packet reference run")
